@@ -36,7 +36,7 @@ def main():
             elif demo.endswith(".cpp"):
                 c = sh("cd %s && g++ -O1 -w -I include -I cplusplus -I _build seed_%s -L _build/src -lxrl -lm -lpthread -o seed_demo_bin && LD_LIBRARY_PATH=_build/src timeout 600 ./seed_demo_bin" % (wt, os.path.basename(demo)))
             elif demo.endswith(".sh"):
-                c = sh("cd %s && LD_LIBRARY_PATH=_build/src timeout 900 sh seed_%s" % (wt, os.path.basename(demo)))
+                c = sh("cd %s && LD_LIBRARY_PATH=_build/src timeout 900 bash seed_%s" % (wt, os.path.basename(demo)))
             else:
                 c = sh("cd %s && timeout 900 python3 seed_%s" % (wt, os.path.basename(demo)))
             print("[%s] exit=%d  %s" % (phase, c.returncode, " | ".join(c.stdout.strip().splitlines()[-2:])[:300]))
